@@ -1192,7 +1192,13 @@ func (a *fnAn) callResultOf(call *ssa.Call, idx int, typ types.Type, sums map[*s
 	if b, ok := cc.Value.(*ssa.Builtin); ok {
 		switch b.Name() {
 		case "len", "cap":
-			return AV{P: &Iv{bi(0), maxInt}}
+			// trusted: no object has 2^56 or more elements (far beyond any address space Go
+			// supports); this leaves head-room so that len+c does not count as overflowing
+			lim := new(big.Int).Lsh(bi(1), 56)
+			if maxInt.Cmp(lim) < 0 {
+				lim = maxInt
+			}
+			return AV{P: &Iv{bi(0), lim}}
 		case "min", "max":
 			return AV{P: tr}
 		}
@@ -1210,6 +1216,13 @@ func (a *fnAn) callResultOf(call *ssa.Call, idx int, typ types.Type, sums map[*s
 	case "reflect.(Value).Len", "reflect.(Value).Cap", "reflect.(Type).Len", "reflect.(Type).NumField", "reflect.(Value).NumField",
 		"bytes.(Buffer).Len", "bytes.(Reader).Len", "strings.(Builder).Len", "bytes.(Buffer).Cap", "container/list.(List).Len":
 		return AV{P: &Iv{bi(0), maxInt}}
+	case "strings.Index", "strings.IndexByte", "strings.IndexRune", "strings.IndexAny", "strings.LastIndex", "strings.LastIndexByte", "bytes.Index", "bytes.IndexByte", "bytes.LastIndex":
+		// -1, or a position inside the first argument
+		av := AV{P: &Iv{bi(-1), new(big.Int).Lsh(bi(1), 56)}}
+		if len(cc.Args) > 0 {
+			av.UB = []Sym{{'l', a.sliceKey(cc.Args[0]), -1, false}}
+		}
+		return av
 	case "math/bits.Len", "math/bits.Len8", "math/bits.Len16", "math/bits.Len32", "math/bits.Len64",
 		"math/bits.LeadingZeros", "math/bits.LeadingZeros32", "math/bits.LeadingZeros64", "math/bits.TrailingZeros64", "math/bits.OnesCount64":
 		return AV{P: ivOf(0, 64)}
@@ -1683,6 +1696,51 @@ func (a *fnAn) assign(st tstate, v ssa.Value, av AV, b *ssa.BasicBlock) {
 		a.assignConv(st, x.X, x.Type(), av, b)
 	case *ssa.ChangeType:
 		a.assignConv(st, x.X, x.Type(), av, b)
+	case *ssa.BinOp:
+		// what is learnt about x + c (x - c) is learnt about x: shift by the constant
+		if x.Op == token.ADD || x.Op == token.SUB {
+			if k, ok := constIntVal(x.Y); ok && isIntegerType(x.X.Type(), a.sizes) {
+				if x.Op == token.SUB {
+					k = -k
+				}
+				src := a.eval(x.X, st)
+				sh := func(iv *Iv) *Iv {
+					if iv == nil {
+						return nil
+					}
+					out := &Iv{}
+					if iv.Lo != nil {
+						out.Lo = new(big.Int).Sub(iv.Lo, bi(k))
+					}
+					if iv.Hi != nil {
+						out.Hi = new(big.Int).Sub(iv.Hi, bi(k))
+					}
+					return out
+				}
+				n := src
+				if all := sh(av.all()); all != nil {
+					if src.T != nil {
+						if m := meet(src.T, all); m != nil {
+							n.T = m
+						}
+					}
+					if src.P != nil {
+						if m := meet(src.P, all); m != nil {
+							n.P = m
+						}
+					}
+				}
+				ub := append([]Sym(nil), src.UB...)
+				for _, u := range av.UB {
+					ub = append(ub, Sym{u.Kind, u.Key, u.K - k, u.T})
+				}
+				n.UB = normUB(ub)
+				if _, isK := x.X.(*ssa.Const); !isK {
+					st["V:"+x.X.Name()] = n
+					a.vals[x.X.Name()] = x.X
+				}
+			}
+		}
 	case *ssa.UnOp:
 		if x.Op == token.MUL {
 			if key, ok := a.loadStillValid(x.Name(), b); ok {
@@ -3052,4 +3110,21 @@ func (t *TLG) sliceLenParams(fn *ssa.Function, ridx int) []int {
 	sort.Ints(out)
 	t.lenParams[k] = out
 	return out
+}
+
+// ProbeIndexInBounds: inside a Probe callback, whether 0 <= idx < len(x) is established at the
+// instruction being visited (numerically or through the symbolic bounds).
+func (t *TLG) ProbeIndexInBounds(idx, x ssa.Value) (bool, string) {
+	if t.curAn == nil {
+		return false, "no state"
+	}
+	av := t.curAn.eval(idx, t.curSt)
+	if !nonNeg(av.all()) {
+		return false, "index " + av.String() + " not known to be non-negative"
+	}
+	ok, why := t.curAn.boundedBy(av, idx, x, t.curSt, true, false)
+	if !ok {
+		return false, "index " + av.String() + "; " + why
+	}
+	return true, ""
 }
